@@ -492,6 +492,10 @@ func exprToTypeExpr(e Expr) *TypeExpr {
 		if e.Op == "*" {
 			return &TypeExpr{Kind: "ptr", Elem: exprToTypeExpr(e.X)}
 		}
+	case *Index:
+		t := exprToTypeExpr(e.X)
+		t.Args = append(t.Args, exprToTypeExpr(e.I))
+		return t
 	}
 	panic(specErr{"type expected"})
 }
@@ -513,6 +517,9 @@ func (p *Program) resolveTypeExpr(te *TypeExpr, tc *typeCtx) SpecType {
 		return goST(types.NewMap(p.resolveTypeExpr(te.Key, tc).Go, p.resolveTypeExpr(te.Elem, tc).Go))
 	}
 	name := te.Name
+	if name == "backing" {
+		return goST(backingT)
+	}
 	if tc != nil {
 		if t, ok := tc.targs[name]; ok {
 			return goST(t)
